@@ -36,7 +36,7 @@ import (
 )
 
 // all replay attempts of one check run share this much wall time
-const replayBudget = 150 * time.Second
+const replayBudget = 90 * time.Second
 
 var replayStart time.Time
 
